@@ -343,7 +343,7 @@ func verifC16UDPHandshake(cs, ss []byte, timeout time.Duration) (verifC16HSResul
 	if err != nil {
 		return r, err
 	}
-	defer l.Close()
+	defer verifC16Retire(l)
 	addr := l.Addr().(*net.UDPAddr)
 	ctx, cancel := context.WithTimeout(context.Background(), timeout)
 	defer cancel()
@@ -391,6 +391,22 @@ func verifC16UDPHandshake(cs, ss []byte, timeout time.Duration) (verifC16HSResul
 		r.tagNote += fmt.Sprintf(" registrations-left=%d/%d", n1, n2)
 	}
 	return r, nil
+}
+
+// verifC16Retire is called instead of Listener.Close: the UDP listener of the vendored transport fork
+// (mingyech/transport/v2 udp/conn.go) calls connWG.Add(1) in Accept after Close may already have brought the
+// counter to zero ("sync: WaitGroup is reused before previous Wait has returned" – seen once while closing a
+// listener right after a refused handshake).  Closing a listener is outside C16, so the drivers never close
+// one while the process lives; a retired listener merely stays idle until the test binary exits.
+var verifC16Retired struct {
+	mu sync.Mutex
+	ls []*Listener
+}
+
+func verifC16Retire(l *Listener) {
+	verifC16Retired.mu.Lock()
+	verifC16Retired.ls = append(verifC16Retired.ls, l)
+	verifC16Retired.mu.Unlock()
 }
 
 func verifC16WaitRegistered(l *Listener, id verifC16ID, bound time.Duration) bool {
